@@ -179,6 +179,11 @@ func c16LargestDatagrams(c *vk.Ctx, r *rand.Rand) bool {
 
 func c16Round(c *vk.Ctx, r *rand.Rand, round int) bool {
 	keys := RandKeys(r, 3+r.Intn(5), nil, 0.2)
+	if round%2 == 1 {
+		// a key whose id is the empty string is a key like any other (its traffic is its own series)
+		keys[0].ID = ""
+		c.Count("rounds_with_an_empty_key_id", 1)
+	}
 	sm, err := oprom.NewServiceMetrics(&fakeDB{})
 	if err != nil {
 		fatalf("NewServiceMetrics: %v", err)
@@ -674,7 +679,7 @@ func init() {
 		Parallel:    func(t string) int { return 4 },
 		Timeout:     func(t string) time.Duration { return 25 * time.Minute },
 		Run: func(c *vk.Ctx) {
-			for _, s := range []string{"client_datagram_reports_checked", "reply_reports_checked", "audits_passed", "failed_reply_reports", "oversized_replies_sent", "dns_single_query_clients", "expiry_cycles_reported", "datagrams_from_unaddressed_endpoints", "socket_reads_vs_reports_checked", "oversized_reply_sizes_reported_exactly", "largest_client_datagrams_reported_exactly_v4", "largest_client_datagrams_reported_exactly_v6"} {
+			for _, s := range []string{"client_datagram_reports_checked", "reply_reports_checked", "audits_passed", "failed_reply_reports", "oversized_replies_sent", "dns_single_query_clients", "expiry_cycles_reported", "datagrams_from_unaddressed_endpoints", "socket_reads_vs_reports_checked", "oversized_reply_sizes_reported_exactly", "largest_client_datagrams_reported_exactly_v4", "largest_client_datagrams_reported_exactly_v6", "rounds_with_an_empty_key_id"} {
 				c.Require(s)
 			}
 			c16Run(c)
